@@ -31,8 +31,19 @@
 namespace tbox {
 namespace alarm {
 
+#ifdef CPP_TBOX_VERIF
+//! verification hook: when set, replaces the wall clock read by alarms
+bool (*verif_utc_hook)(uint32_t &utc_sec, uint32_t &utc_usec) = nullptr;
+#endif
+
 bool Alarm::GetCurrentUtcTime(uint32_t &utc_sec)
 {
+#ifdef CPP_TBOX_VERIF
+  if (verif_utc_hook != nullptr) {
+    uint32_t utc_usec = 0;
+    return verif_utc_hook(utc_sec, utc_usec);
+  }
+#endif
   struct timeval utc_tv;
   if (gettimeofday(&utc_tv, nullptr) == 0) {
     utc_sec = utc_tv.tv_sec;
@@ -45,6 +56,10 @@ bool Alarm::GetCurrentUtcTime(uint32_t &utc_sec)
 
 bool Alarm::GetCurrentUtcTime(uint32_t &utc_sec, uint32_t &utc_usec)
 {
+#ifdef CPP_TBOX_VERIF
+  if (verif_utc_hook != nullptr)
+    return verif_utc_hook(utc_sec, utc_usec);
+#endif
   struct timeval utc_tv;
   if (gettimeofday(&utc_tv, nullptr) == 0) {
     utc_sec = utc_tv.tv_sec;
